@@ -40,14 +40,15 @@ pub fn make_group(r: &mut Prng, m: Vec<u8>, e: Vec<u8>, t: u32, local: bool, aux
   let mg = MessageGenerator::new(SingleMeasurement::new(&m), t, &e);
   let mut rnd = [0u8; 32];
   if local {
-    mg.sample_local_randomness(&mut rnd);
+    // (a panic of the library here or below is a failed generation, reported by the caller - not the end of the run)
+    rnd = guarded(|| { let mut x = [0u8; 32]; mg.sample_local_randomness(&mut x); x })?;
   } else {
     rnd.copy_from_slice(&r.bytes(32));
   }
   let mut wire = vec![];
   let mut xs = vec![];
   for a in &auxs {
-    let msg = Message::generate(&mg, &rnd, a.as_ref().map(|x| AssociatedData::new(x))).ok()?;
+    let msg = guarded(|| Message::generate(&mg, &rnd, a.as_ref().map(|x| AssociatedData::new(x))).ok())??;
     let b = msg.to_bytes();
     let (_, sb, _) = split_message(&b)?;
     xs.push(share_x(&sb)?);
@@ -225,6 +226,7 @@ pub fn gen_reuse(seed: u64, thorough: bool, out: &mut Out) {
     let m1 = { let l_ = 1 + r.below(9) as usize; r.bytes(l_) };
     let m2 = { let l_ = 1 + r.below(9) as usize; r.bytes(l_) };
     let mut mg = MessageGenerator::new(SingleMeasurement::new(&m1), t, &e);
+    let mut prev_key: Option<Vec<u8>> = None;
     for phase in 0..3 {
       let (m, local) = match phase { 0 => (m1.clone(), true), 1 => (m1.clone(), false), _ => (m2.clone(), true) };
       if phase == 2 {
@@ -268,6 +270,16 @@ pub fn gen_reuse(seed: u64, thorough: bool, out: &mut Out) {
       } else if pays.iter().enumerate().any(|(i, p)| *p != Some((g.m.clone(), g.aux[i].clone()))) {
         v = Err(format!("use {} of one generator: a report does not open to the measurement and associated data supplied", phase));
       }
+      // a report of this batch must not open with the key of an EARLIER batch of the same generator
+      if let Some(pk) = &prev_key {
+        if let Some(msg) = Message::from_bytes(&g.wire[0]) {
+          let p = msg.ciphertext.decrypt(pk, "star_encrypt");
+          if strict_payload(&p).map_or(false, |(mm, _)| mm == g.m) && *pk != ske_key(&r3[0], &e) {
+            v = Err(format!("use {} of one generator: the report opens with the key of an earlier use (another measurement or randomness)", phase));
+          }
+        }
+      }
+      prev_key = Some(ske_key(&r3[0], &e));
       out.case(scn_case(&g, &sel), format!("wire={} {}", g.wire.iter().map(|b| hex(b)).collect::<Vec<_>>().join(","), obs), v);
     }
   }
@@ -369,6 +381,8 @@ pub fn gen_c02(seed: u64, thorough: bool, only: Option<u64>, out: &mut Out) {
   if only.is_none() {
     gen_c02_high(seed, thorough, out);
     gen_reuse(seed ^ 0x2, thorough, out);
+    // no single share carries the secret: also under chosen draws of the random source for the share point
+    crate::g_sharks::gen_forced_points(out);
   }
   let groups: u64 = if thorough { 200 } else { 24 };
   let ts: &[u32] = if thorough { &[2, 3, 4, 5, 6, 8, 16, 40, 64] } else { &[2, 3, 4, 5, 8] };
@@ -380,7 +394,7 @@ pub fn gen_c02(seed: u64, thorough: bool, only: Option<u64>, out: &mut Out) {
     let mut r = Prng::for_case(seed, "C02", gi);
     let t = if (gi as usize) < ts.len() { ts[gi as usize] } else { *r.pick(ts) };
     let n = t as usize + 1;
-    let ml = *r.pick(&[1usize, 8, 16, 32, 40]);
+    let ml = *r.pick(&[1usize, 8, 16, 32, 40, 70]);
     let m = r.bytes(ml);
     let el = 1 + r.below(4) as usize;
     let e = r.bytes(el);
@@ -446,11 +460,17 @@ pub fn gen_c02(seed: u64, thorough: bool, only: Option<u64>, out: &mut Out) {
     let mut other = vec![];
     let e_near = { let mut x = e.clone(); x[0] = if x[0] == 0xfe { 0xfd } else { 0xfe }; x };
     let mut near: Vec<Vec<u8>> = vec![];
-    for (k2, (m2, e2, t2)) in [(r.bytes(9), e.clone(), t), (m.clone(), r.bytes(3), t), (m.clone(), e.clone(), t + 1), (m.clone(), e_near, t)].into_iter().enumerate() {
+    let mut near_m: Vec<Vec<u8>> = vec![];
+    // a measurement that agrees with this one on its first 32 bytes (or is its zero extension)
+    let m_near = if m.len() > 32 { let mut x = m.clone(); let l = x.len(); x[l - 1] ^= 0x55; x } else { let mut x = m.clone(); x.push(0); x };
+    for (k2, (m2, e2, t2)) in [(r.bytes(9), e.clone(), t), (m.clone(), r.bytes(3), t), (m.clone(), e.clone(), t + 1), (m.clone(), e_near, t), (m_near, e.clone(), t)].into_iter().enumerate() {
       if let Some(g2) = make_group(&mut r, m2, e2, t2, true, vec![None; (t as usize).max(2) - 1]) {
         other.extend(g2.wire.iter().map(|w| split_message(w).unwrap().1));
         if k2 == 3 {
           near = g2.wire.iter().map(|w| split_message(w).unwrap().1).collect();
+        }
+        if k2 == 4 {
+          near_m = g2.wire.iter().map(|w| split_message(w).unwrap().1).collect();
         }
       }
     }
@@ -519,6 +539,11 @@ pub fn gen_c02(seed: u64, thorough: bool, only: Option<u64>, out: &mut Out) {
       col.extend(near.iter().cloned());
       emit(col, "t-1 shares completed by shares of the same measurement under a neighbouring epoch", out);
     }
+    if !near_m.is_empty() {
+      let mut col: Vec<Vec<u8>> = shares[..tt - 1].to_vec();
+      col.extend(near_m.iter().cloned());
+      emit(col, "t-1 shares completed by shares of a measurement that agrees on the first 32 bytes / differs by a trailing zero", out);
+    }
     // (c) sub-threshold set padded with foreign shares, in every position relative to the own ones
     if !other.is_empty() {
       for first_foreign in [false, true] {
@@ -544,6 +569,8 @@ pub fn gen_c03(seed: u64, thorough: bool, only: Option<u64>, out: &mut Out) {
     }
     let mut r = Prng::for_case(seed, "C03", gi);
     let t = *r.pick(&[2u32, 3, 5]);
+    // one group with a threshold in the thirties: more coefficients than a short random pool yields
+    let t = if gi == 4 { 34 } else { t };
     let ml = if gi % 6 == 5 { 0 } else { *r.pick(&[1usize, 5, 16, 40, 170]) };
     let m = r.bytes(ml);
     let e = { let l_ = 1 + r.below(3) as usize; r.bytes(l_) };
@@ -701,6 +728,7 @@ pub fn gen_c03(seed: u64, thorough: bool, only: Option<u64>, out: &mut Out) {
   }
   if only.is_none() {
     gen_c03_cross(seed, thorough, out);
+    gen_reuse(seed ^ 0x3, thorough, out);
   }
 }
 
@@ -868,6 +896,9 @@ pub fn gen_c04(seed: u64, thorough: bool, _only: Option<u64>, out: &mut Out) {
     if parts.iter().any(|p| static_part(&p.1) != static_part(&parts[0].1)) {
       v = Err("share fields other than the point differ between clients of one triple".to_string());
     }
+    if g.xs.len() >= 2 && g.xs.iter().all(|x| x.len() == 24 && x[8..].iter().all(|&b| b == 0)) {
+      v = Err(format!("all {} share points of one group are below 2^64: they are not drawn from the whole field, so independent clients will collide", g.xs.len()));
+    }
     let xs: std::collections::BTreeSet<&Vec<u8>> = g.xs.iter().collect();
     if xs.len() != g.xs.len() {
       v = Err("two clients drew the same share point".to_string());
@@ -927,10 +958,11 @@ pub fn gen_c05(seed: u64, thorough: bool, only: Option<u64>, out: &mut Out) {
       // group 0 always carries the witness of the known finding C05/t1-share-point
       let t = if gi == 0 && k == 0 { 1 } else { t };
       let m = { let l_ = *r.pick(&[0usize, 1, 4, 32, 170]); r.bytes(l_) };
-      let coins = { let l_ = *r.pick(&[0usize, 4, 32]); r.bytes(l_) };
+      let coins = { let l_ = *r.pick(&[0usize, 4, 32, 45]); r.bytes(l_) };
       // group 0: a non-empty threshold-1 sharing (witness of t1-share-point); group 1: an empty sharing
       // (witness of short-sharing); elsewhere whatever the stream gives
-      let (m, coins) = if gi == 0 && k == 0 && m.is_empty() { (vec![7u8; 4], coins) } else if gi == 1 && k == 0 { (vec![], vec![]) } else { (m, coins) };
+      // group 2: message and coins longer than a 32-byte key / shorter than a block (every byte of both must count)
+      let (m, coins) = if gi == 0 && k == 0 && m.is_empty() { (vec![7u8; 4], coins) } else if gi == 1 && k == 0 { (vec![], vec![]) } else if gi == 2 && k == 0 { (vec![0x6d; 40], (0..45u8).collect()) } else { (m, coins) };
       let c = adss::Commune::new(t, m.clone(), coins, None);
       let n = t as usize + 1 + (k == 0) as usize;
       let sh: Vec<Vec<u8>> = (0..n).filter_map(|_| c.clone().share().ok().map(|s| s.to_bytes())).collect();
@@ -1068,6 +1100,17 @@ pub fn gen_c05(seed: u64, thorough: bool, only: Option<u64>, out: &mut Out) {
               emit(&col, Some(m0), format!("second share: {} byte {} altered", name, p), out);
             }
           }
+        }
+      }
+    }
+    // the whole share point of the first share replaced: by zero (where the secret lives), by p - 1, by another share's
+    if base.len() >= 2 && base[0].len() >= 32 && base[1].len() >= 32 {
+      let pm1 = { let mut b = vec![0u8; 24]; b[..16].copy_from_slice(&12450u128.to_le_bytes()); b[16] = 1; b };
+      for (what, x) in [("zero", vec![0u8; 24]), ("p - 1", pm1), ("the second share's point", base[1][8..32].to_vec())] {
+        let mut col = base.clone();
+        if col[0][8..32] != x[..] {
+          col[0][8..32].copy_from_slice(&x);
+          emit(&col, None, format!("first share: share point replaced by {}", what), out);
         }
       }
     }
